@@ -724,11 +724,19 @@ class BatcherWorld:
                         break
         # sharing: consecutive arrivals < bt apart share a batch unless it is full
         where = {k: B for B in self.batches for k, _ in B.items}
+        shrinks = [tm for (_, n0), (tm, n1) in zip(self.size_limits, self.size_limits[1:]) if n1 < n0]
+        arr_no = {C.key: n for n, C in enumerate(self.arrivals)}
         for a, b in zip(self.arrivals, self.arrivals[1:]):
             gap = b.t_call - a.t_call
             if gap < bt and where[a.key] is not where[b.key]:
                 B = where[a.key]
-                lim = min(limits_at(a.t_call, b.t_call)) if mutated else p['max_batch_size']
+                if any(X.t_call <= tm <= where[X.key].start for tm in shrinks for X in self.arrivals[:arr_no[a.key] + 1]
+                       if where[X.key].start >= a.t_call):
+                    # the limit shrank while calls up to a were still collected, not handed over: the open group may then
+                    # exceed the new limit, and how an over-full group is cut up is not something the statement fixes
+                    continue
+                # (mutated limit: an implementation may also apply the limit in force when it hands the batch over)
+                lim = min(limits_at(a.t_call, max(b.t_call, B.start))) if mutated else p['max_batch_size']
                 if len(B.items) < lim:
                     self.viol('C10', 'batcher.split_burst', 'calls less than batch_timeout apart did not share a batch',
                               f'{a.key}@{a.t_call} and {b.key}@{b.t_call} (gap {gap} < {bt}); batch {B.b} has '
@@ -736,8 +744,15 @@ class BatcherWorld:
         # dispatch deadline
         INF = float('inf')
         ends = sorted(B.end for B in self.batches if B.end is not None)
+        order = {C.key: n for n, C in enumerate(self.arrivals)}
         for B in self.batches:
             last = max(tarr[k] for k, _ in B.items)
+            if mutated:
+                # a later arrival may have joined the same open group (restarting its clock) before a change of the limit
+                # made the implementation split the group at hand-over: count every arrival from B's first item on that
+                # came before B was handed over
+                first = min(order[k] for k, _ in B.items)
+                last = max([last] + [C.t_call for C in self.arrivals[first:] if C.t_call < B.start])
             deadline = last + bt
             if B.start <= deadline:
                 if len(B.items) < (min(n for _, n in self.size_limits)) and B.start < deadline and not mutated:
